@@ -227,7 +227,15 @@ impl<'a> Socket<'a> {
     }
 
     /// Set the outgoing options.
+    ///
+    /// # Panics
+    /// This function panics if the data of an option is longer than 255 octets:
+    /// such an option cannot be encoded (RFC 2132 section 2).
     pub fn set_outgoing_options(&mut self, options: &'a [DhcpOption<'a>]) {
+        assert!(
+            options.iter().all(|o| o.data.len() <= u8::MAX as usize),
+            "DHCP option data longer than 255 octets"
+        );
         self.outgoing_options = options;
     }
 
@@ -240,7 +248,15 @@ impl<'a> Socket<'a> {
     ///
     /// This should contain at least `OPT_SUBNET_MASK` (`1`), `OPT_ROUTER`
     /// (`3`), and `OPT_DOMAIN_NAME_SERVER` (`6`).
+    ///
+    /// # Panics
+    /// This function panics if the list is longer than 255 octets:
+    /// it could not be encoded as one option (RFC 2132 section 2).
     pub fn set_parameter_request_list(&mut self, parameter_request_list: &'a [u8]) {
+        assert!(
+            parameter_request_list.len() <= u8::MAX as usize,
+            "DHCP parameter request list longer than 255 octets"
+        );
         self.parameter_request_list = Some(parameter_request_list);
     }
 
